@@ -53,6 +53,7 @@ def build_obligations(spec, vocab, inst):
         if o.kind in ("normal", "return"):
             n_normal += 1
             res = o.val if o.kind == "return" else None
+            o.st.ghost.update(spec.ghost_update(old, o.st, a, res) or {})
             for cl in spec.post(old, o.st, a, res):
                 if cl.tag == "lemma":
                     # auxiliary lemma: proved here, then assumed by the clauses that follow it
